@@ -37,7 +37,32 @@ fn subsets(ids: &[i64]) -> Vec<Vec<i64>> {
     (0..(1u32 << n)).map(|m| (0..n).filter(|i| m & (1 << i) != 0).map(|i| ids[i]).collect()).collect()
 }
 
+/// one engine, many (source, id) pairs in sequence: admission must not depend on what was scanned before
+/// (ids that agree modulo 2^32, extreme ids, sources that extend one another with `-`)
+fn gen_sequences(tier: &str, seed: u64, out: &mut dyn FnMut(Value)) {
+    use crate::dsl::SRule;
+    let mut rng = Rng::new(seed ^ 0x5eed);
+    let ids = [1i64, -1, 0, 2, 4294967297, -4294967295, 4294967296, i64::MIN, i64::MAX, -2, 8589934593];
+    let srcs = ["a", "a-", "a--", "b", ""];
+    let n = if tier == "thorough" { 6000 } else { 500 };
+    for _ in 0..n {
+        let mut m = vec![];
+        for s in srcs {
+            if rng.chance(1, 2) {
+                let k = rng.below(4);
+                let l: Vec<i64> = (0..k).map(|_| *rng.pick(&ids)).collect();
+                m.push(json!([s, l]));
+            }
+        }
+        let r = SRule { name: "r".into(), match_on: Some(json!(m)), ..Default::default() };
+        let len = 4 + rng.below(10);
+        let events: Vec<Value> = (0..len).map(|_| json!({"source": *rng.pick(&srcs), "id": *rng.pick(&ids), "fields": []})).collect();
+        out(json!({"op": "scenario", "rules": [r.to_json(&mut rng)], "events": events, "tag": "sequences on one engine", "nt": true}));
+    }
+}
+
 pub fn gen(tier: &str, seed: u64, out: &mut dyn FnMut(Value)) {
+    gen_sequences(tier, seed, out);
     let srcs = ["a", "b", "c"];
     let ev_ids: Vec<i64> = (-2..=3).collect();
     let mut emit = |mo: Value, out: &mut dyn FnMut(Value)| {
